@@ -85,6 +85,16 @@ def excid(e):
     return EXC_ID.get(e.__name__, 900)
 
 
+def val(v):
+    """a stored / returned value as it goes into the log: small scalars as they are, anything else (a coroutine object, a
+    Future ...) by the name of its type - no addresses"""
+    if v is None or type(v) in (int, str, bool):
+        return v
+    if isinstance(v, float):
+        return v.hex()
+    return "<%s>" % type(v).__name__
+
+
 def tid(m):
     s = m.task_id
     return int(s[2:]) if s.startswith("id") and s[2:].isdigit() else 4000
@@ -229,7 +239,7 @@ class RecBackend(AsyncResultBackend):
             log(w, "save.stale", task_id)
             return
         p = CUR["plan"][w]
-        log(w, "save.enter", task_id, result.is_err, result.return_value, excid(result.error), canon(result.labels),
+        log(w, "save.enter", task_id, result.is_err, val(result.return_value), excid(result.error), canon(result.labels),
             float(result.execution_time).hex())
         await susp(p.get("save_susp"))
         if not p.get("save_ok", True):
@@ -263,6 +273,73 @@ class ScriptedBroker(AsyncBroker):
     async def listen(self):
         return
         yield b""
+
+
+class SuperBroker(ScriptedBroker):
+    """a broker written the way third-party brokers are: startup() / shutdown() do their own work (open / close a
+    connection) around the base class's - AsyncBroker.startup() / shutdown() run underneath"""
+
+    async def startup(self):
+        await super().startup()
+        await asyncio.sleep(0)
+        self._conn = True
+
+    async def shutdown(self):
+        self._conn = False
+        await asyncio.sleep(0)
+        await super().shutdown()
+
+
+def make_broker(life):
+    return SuperBroker() if (life or {}).get("cls") == "super" else ScriptedBroker()
+
+
+def life_note(*ev):
+    CUR.setdefault("life_log", []).append(list(ev))
+
+
+def give_life_hooks(mws, kinds):
+    """life["mw_hooks"][k] = sync | async: the class of middleware k ALSO overrides startup / shutdown (what
+    AsyncBroker.startup() / shutdown() call); async ones take a millisecond of virtual time, so that a shutdown is under
+    way while messages are.  They go to a log of their own: the pipeline properties say nothing about them."""
+    for inst, kind in zip(mws, kinds or []):
+        if not kind:
+            continue
+
+        def mk(what, kind):
+            if kind == "async":
+                async def f(self):
+                    life_note("mw." + what + ".begin", self._rec_idx)
+                    await asyncio.sleep(0.001)
+                    life_note("mw." + what, self._rec_idx)
+            else:
+                def f(self):
+                    life_note("mw." + what, self._rec_idx)
+            f.__name__ = f.__qualname__ = what
+            return f
+        for what in ("startup", "shutdown"):
+            setattr(type(inst), what, mk(what, kind))
+
+
+async def life_ops(broker, ops):
+    """startup / shutdown calls on one broker OBJECT, one after the other (cycle = shutdown then startup: an application
+    lifespan that ends and the next one that begins on the same module-level broker)"""
+    for op in ops or []:
+        for o in (["shutdown", "startup"] if op == "cycle" else [op]):
+            life_note("broker." + o + ".begin", getattr(broker, "_rec_b", 0),
+                      sorted(w for w, v in CUR.get("exec", {}).items() if v))    # (messages inside run_task right now)
+            await getattr(broker, o)()
+            life_note("broker." + o, getattr(broker, "_rec_b", 0))
+
+
+async def life_task(brokers, at):
+    """life-cycle calls made while messages are under way: at = [[ms, broker, op]] (virtual time since the run began)"""
+    t0 = 0
+    for ms, b, op in at:
+        if ms > t0:
+            await asyncio.sleep((ms - t0) / 1000.0)
+            t0 = ms
+        await life_ops(brokers[b], [op])
 
 
 def typed_labels(tbl, idx):
@@ -397,7 +474,7 @@ def hook_fn(name, h, tbl):
 
     def res_hook():
         def enter(w, self, m, r, *a):
-            ev = ["hook", name, self._rec_idx, m.task_id, canon(m.labels), r.is_err, r.return_value, excid(r.error),
+            ev = ["hook", name, self._rec_idx, m.task_id, canon(m.labels), r.is_err, val(r.return_value), excid(r.error),
                   canon(r.labels)]
             if name == "on_error":
                 ev.append(excid(a[0]))
@@ -771,7 +848,31 @@ def logging_off(st):
 
 
 # ------------------------------------------------------------------------------------- receive side
-def make_task(broker, i, M, loop):
+def task_name(msgs, i):
+    """the task name message i is addressed to.  M["name_of"] = j: the name of message j (its task t<j>, or the unknown name
+    nope<j>) - message i's function is registered under that SAME name when message i arrives (see make_task)"""
+    M = msgs[i]
+    j = M.get("name_of")
+    if j is not None:
+        return task_name(msgs, j)
+    return "t%d" % i if M["kind"] == "ok" else "nope%d" % i
+
+
+SIG_SRC = {
+    # parameter lists that differ from the plain one without touching the dependencies: an extra positional parameter
+    # with a default, a keyword-only one, a return annotation / another annotation of the dependency parameter
+    "extra": ("%(d)sextra=0", ""),
+    "kwonly": ("%(d)s*, opt=None", ""),
+    "annot": ("%(d)s", " -> int"),
+    "varkw": ("%(d)s**options", ""),
+}
+
+
+def make_task(broker, i, M, loop, name=None, group=None):
+    """register the function of message i under `name` (default t<i>).  group = key of the re-registration group: the
+    functions registered one after the other under one name declare the SAME dependency (one callable object, whose log
+    entries go to the message being processed) - what differs is the function: sync / async, body, outcome, durations,
+    parameter list (M["sig"]), the way it is registered (M["reg_via"])."""
     out = M["out"]
 
     def finish_body():
@@ -793,6 +894,11 @@ def make_task(broker, i, M, loop):
 
     def sbody():
         log(i, "body.start")
+        if threading.get_ident() == CUR.get("loop_thread"):
+            # a SYNC function entered on the event loop's own thread (it must run in the executor): parking this thread
+            # would stop the loop - say so in the log and go on without the virtual sleeps
+            log(i, "body.inloop")
+            return finish_body()
         e = CUR.get("entered")
         if e is not None:
             e.set()
@@ -800,33 +906,48 @@ def make_task(broker, i, M, loop):
             loop.thread_vsleep(s)
         return finish_body()
 
+    dw = (lambda: i) if group is None else who
+
     def dep_sync():
-        log(i, "dep.open")
+        w = dw()
+        log(w, "dep.open")
         if M["dep"] == "fail":
             raise exc_instance(2, M["dep_x"]) if M.get("dep_x") else LookupError("dep")
         try:
             yield 1
         except BaseException as e:
-            log(i, "dep.saw", excid(e))
+            log(w, "dep.saw", excid(e))
             raise
         finally:
-            log(i, "dep.close")
+            log(w, "dep.close")
 
     async def dep_async():
-        log(i, "dep.open")
+        w = dw()
+        log(w, "dep.open")
         await susp(M.get("dep_susp"))
         if M["dep"] == "fail":
             raise exc_instance(2, M["dep_x"]) if M.get("dep_x") else LookupError("dep")
         try:
             yield 1
         except BaseException as e:
-            log(i, "dep.saw", excid(e))
+            log(w, "dep.saw", excid(e))
             raise
         finally:
-            log(i, "dep.close")
+            log(w, "dep.close")
 
     dep = dep_async if M.get("dep_async") else dep_sync
-    if M["style"] == "async":
+    if group is not None:
+        dep = CUR.setdefault("group_dep", {}).setdefault(group, dep)
+    sig = M.get("sig")
+    if sig:
+        params, ret = SIG_SRC[sig]
+        params = params % {"d": "" if M["dep"] == "none" else "d: int = TaskiqDepends(dep), "}
+        src = "%sdef fn(%s)%s:\n    return %s\n" % ("async " if M["style"] == "async" else "", params.rstrip(", "), ret,
+                                                   "await abody()" if M["style"] == "async" else "sbody()")
+        ns = {"abody": abody, "sbody": sbody, "TaskiqDepends": TaskiqDepends, "dep": dep, "__name__": __name__}
+        exec(src, ns)                        # noqa: S102 (a function definition of the harness' own making)
+        fn = ns["fn"]
+    elif M["style"] == "async":
         if M["dep"] == "none":
             async def fn():
                 return await abody()
@@ -840,7 +961,13 @@ def make_task(broker, i, M, loop):
         else:
             def fn(d: int = TaskiqDepends(dep)):
                 return sbody()
-    broker.register_task(fn, task_name="t%d" % i)
+    name = name or "t%d" % i
+    if M.get("reg_via") == "decorator":
+        broker.task(task_name=name)(fn)
+    elif M.get("reg_via") == "decorator_labels":
+        broker.task(task_name=name, origin="hot-reload")(fn)
+    else:
+        broker.register_task(fn, task_name=name)
 
 
 def make_payload(broker, i, M, tbl):
@@ -851,12 +978,12 @@ def make_payload(broker, i, M, tbl):
         if v == "fields":
             return b'{"task_id": "id1", "labels": {}}'
         # parse_labels fails: an INT-typed label that is not a number
-        return broker.formatter.dumps(TaskiqMessage(task_id="id%d" % M["id"], task_name="t%d" % i, labels={"n": "abc"},
+        return broker.formatter.dumps(TaskiqMessage(task_id="id%d" % M["id"], task_name=CUR["names"][i], labels={"n": "abc"},
                                                     labels_types={"n": 2}, args=[], kwargs={})).message
     labels, types = {}, {}
     for k, v in typed_labels(tbl, M["labels"]).items():
         labels[k], types[k] = prepare_label(v)
-    name = "t%d" % i if M["kind"] == "ok" else "nope%d" % i
+    name = CUR["names"][i]
     return broker.formatter.dumps(TaskiqMessage(task_id="id%d" % M["id"], task_name=name, labels=labels,
                                                 labels_types=types, args=[], kwargs={})).message
 
@@ -913,7 +1040,7 @@ async def wire_payload(broker, i, M, tbl):
     back to the table value, a label without one arrives as the JSON value that was sent - the table value."""
     w = M["wire"]
     D = typed_labels(tbl, M["labels"])
-    name = "t%d" % i if M["kind"] == "ok" else "nope%d" % i
+    name = CUR["names"][i]
     tid_ = "id%d" % M["id"]
     typed = w.get("typed") or {}
     ghost = [(k, t) for k, t in w.get("ghost") or []]
@@ -1137,11 +1264,15 @@ def run_recv(case):
     # with_result_backend, InMemoryBroker().with_result_backend(...), middlewares added by a plugin's startup code);
     # the receiver must use what the broker has when the message is processed
     late = case.get("late") or {}
+    # life cycle: startup() / shutdown() calls on the broker object before the messages and while they are processed
+    life = case.get("life") or {}
 
     async def main(loop):
-        broker = ScriptedBroker()
+        broker = make_broker(life)
         mws = make_mws(case["mws"], tbl)
-        CUR.update(broker=broker, mws=mws, plan={i: M for i, M in enumerate(msgs)}, exec={}, sending=False)
+        give_life_hooks(mws, life.get("mw_hooks"))
+        CUR.update(broker=broker, mws=mws, plan={i: M for i, M in enumerate(msgs)}, exec={}, sending=False,
+                   names=[task_name(msgs, i) for i in range(len(msgs))], loop_thread=threading.get_ident())
         if case.get("wall"):
             # the wall clock of taskiq.receiver.receiver (and, scope = global, of every module that reads time.time() at
             # call time) is scripted and may step backwards / forwards while executions are under way
@@ -1169,10 +1300,17 @@ def run_recv(case):
             else:
                 broker.with_middlewares(*part)
 
+        def group_of(i):
+            # key of the re-registration group message i belongs to (None: its task name is its own)
+            j = msgs[i].get("name_of")
+            if j is not None:
+                return j
+            return i if any(M2.get("name_of") == i for M2 in msgs) else None
+
         def set_tasks():
             for i, M in enumerate(msgs):
-                if M["kind"] != "bad":
-                    make_task(broker, i, M, loop)
+                if M["kind"] == "ok" and M.get("name_of") is None:
+                    make_task(broker, i, M, loop, group=group_of(i))
 
         def late_part():
             if late.get("formatter"):
@@ -1206,13 +1344,19 @@ def run_recv(case):
         if style == "startup":
             from taskiq.events import TaskiqEvents
             broker.is_worker_process = True
+            def late_once():
+                # (the handler runs on every startup() of the life-cycle cases: it equips the broker once)
+                if not CUR.get("late_done"):
+                    CUR["late_done"] = True
+                    late_part()
+
             if late.get("handler_async"):
                 async def on_startup(state):
                     await asyncio.sleep(0)
-                    late_part()
+                    late_once()
             else:
                 def on_startup(state):
-                    late_part()
+                    late_once()
             broker.add_event_handler(TaskiqEvents.WORKER_STARTUP, on_startup)
         at = case.get("ack_type")
         ex = _ScriptedExecutor(case["executor"]) if case.get("executor") else None
@@ -1230,6 +1374,7 @@ def run_recv(case):
             await broker.startup()          # what Receiver.listen() does first (run_startup=True)
         elif late:
             late_part()
+        await life_ops(broker, life.get("pre"))
 
         async def one(i, M):
             await susp(M.get("arrive"))
@@ -1237,6 +1382,11 @@ def run_recv(case):
                 data = await wire_payload(broker, i, M, tbl)
             else:
                 data = make_payload(broker, i, M, tbl)
+            if M.get("name_of") is not None:
+                # RE-REGISTRATION at run time: this message's function replaces whatever is registered under the name of
+                # message name_of (dynamic tasks, hot reload, a module that declares the task again), then the message
+                # is delivered: it must be executed by the function that is registered now
+                make_task(broker, i, M, loop, name=CUR["names"][i], group=group_of(i))
             if M["ackable"] != "none":
                 msg = AckableMessage(data=data, ack=make_ack(i, M))
             else:
@@ -1258,11 +1408,13 @@ def run_recv(case):
         ts = [asyncio.create_task(one(i, M), name="m%d" % i) for i, M in enumerate(msgs)]
         if late.get("swap_at") is not None:
             ts.append(asyncio.create_task(swapper(late["swap_at"]), name="swap"))
+        if life.get("at"):
+            ts.append(asyncio.create_task(life_task([broker], [[ms, 0, op] for ms, op in life["at"]]), name="life"))
         await asyncio.gather(*ts)
         await drain_inflight()
         # let detached sync bodies (timed-out executor futures) finish so that their end is in the log
         await loop.drain_threads()
-        return list(LOG), loop.time_us()     # snapshot before the loop is torn down
+        return list(LOG), loop.time_us(), list(CUR.get("life_log", []))     # snapshot before the loop is torn down
 
     cli_kw = None
     if case.get("cli") is not None:
@@ -1274,12 +1426,12 @@ def run_recv(case):
     lst = logging_on() if case.get("logging") else None
     try:
         # origin of the loop's monotonic clock (arbitrary on a real host: seconds since boot)
-        lg, end = run_on_loop(main, int(float((case.get("wall") or {}).get("mono0", 0)) * 1_000_000))
+        lg, end, lf = run_on_loop(main, int(float((case.get("wall") or {}).get("mono0", 0)) * 1_000_000))
     finally:
         time_mod.time = real_time
         if lst is not None:
             logging_off(lst)
-    return {"log": lg, "end_us": end}
+    return {"log": lg, "end_us": end, "life": lf}
 
 
 # ------------------------------------------------------------------------------------- send side
@@ -1293,18 +1445,24 @@ def run_send(case):
     tbl = case["labels"]
     sends = case["sends"]
     stacks = [case["mws"]] + list(case.get("brokers") or [])
+    life = case.get("life") or {}
 
     async def main(loop):
         brokers = []
         for b, specs in enumerate(stacks):
-            br = ScriptedBroker()
+            br = make_broker(life)
             br._rec_b = b
             br.formatter = RecFormatter(br)
             br.result_backend = RecBackend()
-            br.add_middlewares(*make_mws(specs, tbl, base=100 * b))
+            mws = make_mws(specs, tbl, base=100 * b)
+            give_life_hooks(mws, (life.get("mw_hooks") or [])[b] if b < len(life.get("mw_hooks") or []) else None)
+            br.add_middlewares(*mws)
             brokers.append(br)
         CUR.update(broker=brokers[0], mws=brokers[0].middlewares, plan={i: S for i, S in enumerate(sends)}, exec={},
                    sending=True)
+        for b, ops in enumerate(life.get("pre") or []):
+            if b < len(brokers):
+                await life_ops(brokers[b], ops)
 
         async def step(i, k):
             try:
@@ -1341,6 +1499,8 @@ def run_send(case):
                             br.add_middlewares(*new)
                     if op.get("labels_add") is not None:
                         k = k.with_labels(**op["labels_add"])
+                    # the application's lifespan ends / begins between two sends on this kicker's broker
+                    await life_ops(k.broker, op.get("life"))
                 await step(i, k.with_task_id("id%d" % S["id"]))
 
         chains = {}
@@ -1352,12 +1512,14 @@ def run_send(case):
                 chains.setdefault(S["chain"], []).append(i)
         for c in sorted(chains):
             ts.append(asyncio.create_task(chain(chains[c]), name="m%d" % chains[c][0]))
+        if life.get("at"):
+            ts.append(asyncio.create_task(life_task(brokers, [x for x in life["at"] if x[1] < len(brokers)]), name="life"))
         await asyncio.gather(*ts)
         await drain_inflight()
-        return list(LOG), loop.time_us()
+        return list(LOG), loop.time_us(), list(CUR.get("life_log", []))
 
-    lg, end = run_on_loop(main)
-    return {"log": lg, "end_us": end}
+    lg, end, lf = run_on_loop(main)
+    return {"log": lg, "end_us": end, "life": lf}
 
 
 def run_case(case, opts):
